@@ -298,6 +298,7 @@ struct Init {
                 extern std::vector<uint8_t> random_valid_file(uint64_t, bool, bool, int);
                 std::vector<std::vector<uint8_t>> files;
                 for (int ver : {1, 2, 5}) for (uint64_t k = 1; k <= 3; k++) { uint64_t sd = 1000 * ver + k; std::vector<uint8_t> b; for (int tries = 0; tries < 50; tries++) { b = random_valid_file(sd + 17 * tries, tries % 2, false, ver); if (b.size() > 120) break; } files.push_back(b); }
+                { extern std::vector<uint8_t> highrank_valid_file(int, int); files.push_back(highrank_valid_file(1, 18)); files.push_back(highrank_valid_file(5, 33)); }
                 // library-written seed files: final images of three generated programs
                 for (uint64_t k = 1; k <= 3; k++) { GenParams g; g.forced_np = true; g.np = 1; g.max_data_ops = 4; g.reopen = false; Program q = gen_program(7700 + k, g, "C19-seedfile"); RunOpts o; RunResult r = run_program(q, o); auto it = r.final_files.find("/sim/f0.nc"); if (it != r.final_files.end() && it->second.size > 0 && it->second.size < 100000) files.push_back(it->second.bytes(0, it->second.size)); }
                 for (auto &b : files) {
@@ -311,7 +312,7 @@ struct Init {
             Profile p; p.id = "C19"; p.level = "fault_enumeration"; p.space_seeds = total_cases;
             p.fault_kinds = {"stored-file truncation", "stored-file word substitution", "stored-file random multi-field corruption"};
             p.technique = "deterministic simulation with fault injection on stored bytes: every truncation point and every header word x extreme-value dictionary of seed files, opened by the real library built with AddressSanitizer + UndefinedBehaviorSanitizer";
-            p.rule = "seed files: 9 encoder-written (3 per format CDF-1/2/5, half in non-library dialects) and 3 library-written images; stored-byte faults applied before the file is opened: every truncation point 0..header+8, every aligned 4-byte header word replaced by each of 14 dictionary values (0,1,2,-1,2^31-1,2^31,2^32-2,tags 10/11/12,type codes 6/7,2^16,2^31-4) and every aligned 8-byte word by 4 extremes - " + std::to_string(total_cases) + " cases, one per seed 1.." + std::to_string(total_cases) + ", enumerated completely; later seeds apply 2..6 random byte/word corruptions; the damaged file is opened by 1..3 simulated ranks, every inquiry is made and the first elements of every variable are read; oracle: no sanitizer report, no crash, no assert, no hang, open returns a netCDF error code or self-consistent metadata, no single allocation above 64 MiB + 16 x file size; non-trivial = the library got as far as reading the damaged header (>= 1 MPI-IO read); the check runs the sanitizer build in both tiers";
+            p.rule = "seed files: 9 encoder-written (3 per format CDF-1/2/5, half in non-library dialects), 2 encoder-written files with variables of 18..36 dimensions, and 3 library-written images; stored-byte faults applied before the file is opened: every truncation point 0..header+8, every aligned 4-byte header word replaced by each of 14 dictionary values (0,1,2,-1,2^31-1,2^31,2^32-2,tags 10/11/12,type codes 6/7,2^16,2^31-4) and every aligned 8-byte word by 4 extremes - " + std::to_string(total_cases) + " cases, one per seed 1.." + std::to_string(total_cases) + ", enumerated completely; later seeds apply 2..6 random byte/word corruptions; the damaged file is opened by 1..3 simulated ranks, every inquiry is made and the first elements of every variable are read; oracle: no sanitizer report, no crash, no assert, no hang, open returns a netCDF error code or self-consistent metadata, no single allocation above 64 MiB + 16 x file size; non-trivial = the library got as far as reading the damaged header (>= 1 MPI-IO read); the check runs the sanitizer build in both tiers";
             p.gen = [](uint64_t seed, bool th) {
                 Program q; q.seed = seed; q.cfg.profile = "C19"; sim::Rng rng(seed * 16807 + 3);
                 q.cfg.sim.nprocs = 1 + (int)(seed % 3); q.cfg.sim.node_of.assign(q.cfg.sim.nprocs, 0); q.cfg.sim.deviate = (seed % 2) ? 0.2 : 0;
